@@ -73,6 +73,9 @@ for lang in json.loads(sys.stdin.read()):
     lctx = LanguageContextBuilder(include_experimental_languages=True).set_target_language(lang).create()
     e = CodeGenEnvironmentBuilder(DictLoader({}), lctx).create()
     out['env'][lang] = {'tests': sorted(e.tests), 'filters': sorted(e.filters), 'globals': sorted(e.globals)}
+from nunavut.jinja.environment import CodeGenEnvironment
+out['reserved_namespaces'] = sorted(CodeGenEnvironment.RESERVED_GLOBAL_NAMESPACES)
+out['reserved_names'] = sorted(CodeGenEnvironment.RESERVED_GLOBAL_NAMES)
 import inspect
 from nunavut.jinja import DSDLCodeGenerator
 members = [n for n, m in inspect.getmembers(DSDLCodeGenerator, inspect.isroutine)]
@@ -409,6 +412,16 @@ def dump(roots: typing.List[str], langs: typing.List[str]) -> dict:
     if p.returncode != 0 or 'C16DUMP' not in p.stdout:
         raise Unsupported('dump subprocess failed: ' + p.stdout[-400:].replace('\n', ' | '))
     return json.loads(p.stdout[p.stdout.index('C16DUMP') + 7:])
+
+
+def fallback_data() -> dict:
+    """what the check's falsifier needs when the translator itself failed closed: only the runtime dump (no ast reading)"""
+    tpl = builtin_templates()
+    langs = [l for l in tpl if os.path.exists(os.path.join(gen.REPO, 'src', 'nunavut', 'lang', l, '__init__.py'))]
+    d = dump(['SerializableType', 'Attribute'], langs)
+    d['roots_order'] = ['SerializableType', 'Attribute']
+    d['templates'] = tpl
+    return d
 
 
 def data() -> dict:
